@@ -359,7 +359,8 @@ def examine(case: dict, ctx) -> Outcome:
                 # differ across the jump): only crashes and the use of the Jacobian are judged
                 out.classes.append(f"trajectory-not-compared-nonsmooth:{method}")
                 continue
-            a, b = r.variables.to_numpy(), plain.variables.to_numpy()
+            # the states only: a derived quantity such as -p/x next to a zero crossing of x amplifies 1e-17 to anything
+            a, b = r.variables[vn].to_numpy(), plain.variables[vn].to_numpy()
             if a.shape != b.shape or not np.all(np.abs(a - b) <= 1e-4 * (1 + np.abs(b))):
                 out.bad(f"trajectory-differs-with-jacobian:{method}", with_jacobian=a[-1].tolist(), without=b[-1].tolist())
     return out
